@@ -73,11 +73,19 @@ def deep_cases(tier):
             if pattern in ("item-child", "child-item") and d > 5000:
                 continue
             out.append({"depth": d, "pattern": pattern})
+        # the chain continues through a library tool at every level
+        for pattern in TOOL_PATTERNS:
+            if d <= 20000:
+                out.append({"depth": d, "pattern": pattern})
     return out
 
 
+TOOL_PATTERNS = ("via-amap", "via-afilter", "via-amin", "via-amax", "via-asorted", "via-agen", "via-agen-second-await", "via-dedupe", "via-alru", "via-aretry", "via-call_with_context")
+
+
 def check_deep(case, ctx):
-    from asynq import asynq as A, ConstFuture, scheduler
+    from asynq import asynq as A, ConstFuture, scheduler, async_generator, Value, list_of_generator, AsyncContext
+    from asynq import tools as T
     engine.reset_process_state()
     d = case["depth"]
     pattern = case["pattern"]
@@ -103,6 +111,12 @@ def check_deep(case, ctx):
             stats["resumes"] += 1
             if not it.is_computed():
                 stats["uncomputed"] += 1
+        if pattern.startswith("via-"):
+            v = yield via(n - 1)
+            stats["resumes"] += 1
+            if scheduler.get_active_task() is not me:
+                stats["active"] += 1
+            return v + 1
         child = level.asynq(n - 1)
         if pattern == "tuple":
             (v,) = yield (child,)
@@ -123,6 +137,68 @@ def check_deep(case, ctx):
                 stats["uncomputed"] += 1
         return v + 1 + extra
 
+    @async_generator()
+    def gen(m, second):
+        if second:
+            yield ConstFuture(0)
+        v = yield level.asynq(m)
+        yield Value(v)
+
+    @T.deduplicate()
+    @A()
+    def dd_level(m):
+        return (yield level.asynq(m))
+
+    @T.alru_cache(maxsize=4)
+    @A()
+    def alru_level(m):
+        return (yield level.asynq(m))
+
+    @T.aretry(KeyError, max_tries=2)
+    @A()
+    def retry_level(m):
+        return (yield level.asynq(m))
+
+    class Quiet(AsyncContext):
+        def resume(self):
+            pass
+
+        def pause(self):
+            pass
+
+    @A()
+    def unwrap_first(fut, expect=None):
+        r = yield fut
+        if expect is not None:
+            if r != expect:
+                raise AssertionError("a collection helper returned %r, expected %r" % (r, expect))
+            return expect[0] + 1 if isinstance(expect, list) else expect + 1
+        return r[0]
+
+    @A()
+    def truthy(m):
+        return (yield level.asynq(m)) > 0
+
+    def via(m):
+        """the future through which level(m + 1) awaits level(m)"""
+        if pattern == "via-amap":
+            return unwrap_first.asynq(T.amap.asynq(level, [m]))
+        if pattern == "via-afilter":
+            return unwrap_first.asynq(T.afilter.asynq(truthy, [m]), [m])
+        if pattern in ("via-amin", "via-amax"):
+            return unwrap_first.asynq((T.amin if pattern == "via-amin" else T.amax).asynq([m], key=level), m)
+        if pattern == "via-asorted":
+            return unwrap_first.asynq(T.asorted.asynq([m], key=level), [m])
+        if pattern in ("via-agen", "via-agen-second-await"):
+            return unwrap_first.asynq(list_of_generator.asynq(gen(m, pattern.endswith("second-await"))))
+        if pattern == "via-dedupe":
+            return dd_level.asynq(m)
+        if pattern == "via-alru":
+            return alru_level.asynq(m)
+        if pattern == "via-aretry":
+            return retry_level.asynq(m)
+        return T.call_with_context.asynq(Quiet(), level, m)
+
     try:
         got = level(d)
     except BaseException as e:
@@ -130,7 +206,7 @@ def check_deep(case, ctx):
         got = None
     if got is not None and got != d + 1:
         viol.append(("C03.terminate", "chain of %d awaiting tasks returned %r, expected %r" % (d, got, d + 1)))
-    per_level = {"child": 1, "tuple": 1, "list-const": 1, "item-child": 2, "child-item": 2}[pattern]
+    per_level = {"child": 1, "tuple": 1, "list-const": 1, "item-child": 2, "child-item": 2}.get(pattern, 1)
     expect_resumes = 1 + d * per_level
     if not viol and stats["resumes"] != expect_resumes:
         viol.append(("C03.once", "chain of %d: %d resumes, expected %d" % (d, stats["resumes"], expect_resumes)))
